@@ -61,6 +61,24 @@ PROPS = {
         "assumptions": ["fs backends are driven on the conflict-free key domain (no key is a path-prefix of another key)"],
         "timeout": {"quick": 900, "thorough": 3000},
     },
+    "C05": {
+        "title": "Versioning never loses history and always serves the newest remaining version",
+        "harness": "c05",
+        "model": "Model/Mem.v bucket_put / bucket_rm / bucket_rm_version / get_object_version + Model/Handlers.v",
+        "rule": "memory backend. Exhaustive: bucket Enabled, one put, then every sequence of length 4 (quick) / 5 (thorough) over an "
+                "11-symbol alphabet (put, delete, delete-version of the 1st / 2nd / newest id issued, enable, suspend, get, head by id, "
+                "multi-delete with a version, put of another key), followed by a probe that GETs and HEADs every key with every id ever "
+                "issued; plus seeded random histories of 30/40 ops over three keys starting never-versioned. Version ids are compared "
+                "through a bijection built on first sight (model issue rank <-> implementation string). distinct_nontrivial = distinct "
+                "sequences executed.",
+        "explanation": "Theorems over the version-stack model: fresh ids, archived versions retrievable until deleted, plain delete adds "
+                       "a marker, delete-version removes just that version and promotes the newest remaining one, writes while suspended "
+                       "never destroy versions created while enabled, no reachable state has a nil current version. Tie: each response "
+                       "of each history (status, code, body, ETag, version-id header via the bijection, delete-marker header) from the Go "
+                       "handlers vs the extracted model.",
+        "assumptions": ["version ids are compared up to the order-preserving bijection issue-rank <-> id string"],
+        "timeout": {"quick": 900, "thorough": 3000},
+    },
 }
 
 # properties whose check is not built yet are listed so the manifest stays honest
